@@ -391,6 +391,11 @@ pub fn alphabet(v: Version, honest_len: usize, tier: Tier) -> Vec<Op> {
     ops
 }
 
+thread_local! {
+    /// when set, `execute` spells the pinned key this way (C03 key-spelling family)
+    pub static KEY_SPELLING: std::cell::Cell<Option<u8>> = std::cell::Cell::new(None);
+}
+
 pub struct Outcome {
     pub accepted: bool,
     pub times: Vec<(u64, u32)>,
@@ -404,10 +409,25 @@ pub fn key_arg(base64: bool) -> String {
     if base64 { crypto::base64(&pk, false, true) } else { hex(&pk) }
 }
 
+/// Spellings of the pinned key the client documents/accepts: 0 lower-case hex, 1 base64,
+/// 2 upper-case hex, 3 mixed-case hex
+pub fn key_spelling(k: u8) -> String {
+    let pk = s1().lt_pk();
+    match k {
+        1 => crypto::base64(&pk, false, true),
+        2 => hex(&pk).to_uppercase(),
+        3 => hex(&pk).chars().enumerate().map(|(i, c)| if i % 3 == 0 { c.to_ascii_uppercase() } else { c }).collect(),
+        _ => hex(&pk),
+    }
+}
+
 /// One client execution with one tampered reply.
 pub fn execute(sc: &Scenario, op: &Op, with_key: Option<bool>, json_out: bool, prev_honest: &[u8]) -> Result<Outcome, String> {
     let proto = if sc.v == Version::Classic { "0" } else { "13" };
-    let key = with_key.map(key_arg);
+    let key = with_key.map(|b| KEY_SPELLING.with(|k| match k.get() {
+        Some(sp) => key_spelling(sp),
+        None => key_arg(b),
+    }));
     let mut args: Vec<&str> = vec!["-z", "-v", "-f", "%s %f", "-p", proto, "-t", "5"];
     if let Some(k) = &key {
         args.push("-k");
@@ -752,6 +772,44 @@ pub fn run_c03(ctx: &Ctx) -> Result<(), String> {
     if let Some(e) = failed.lock().unwrap().take() {
         return Err(e);
     }
+    // key spellings: lower/upper/mixed-case hex and base64 must all be accepted as the same key
+    {
+        let mut kcases = vec![];
+        for v in [Version::Classic, Version::Ietf13] {
+            for sp in 0..4u8 {
+                for (n, i) in [(1usize, 0usize), (5, 2)] {
+                    kcases.push((v, sp, n, i));
+                }
+            }
+        }
+        par_for(kcases.len(), 1, |k, _| {
+            let (v, sp, n, i) = kcases[k];
+            let sc = Scenario { v, n, i, stamp: Stamp::at(v, 1_790_000_000, 5) };
+            KEY_SPELLING.with(|c| c.set(Some(sp)));
+            let r = execute(&sc, &Op::Honest, Some(false), false, &[]);
+            KEY_SPELLING.with(|c| c.set(None));
+            match r {
+                Err(e) => {
+                    // a client that sends nothing (e.g. it died parsing the key) is a rejection, not a harness fault
+                    if e.contains("client sent 0 of 1 requests") {
+                        ctx.violation("honest-reply-rejected", "key-parsing", &format!("{}/key-spelling", v.name()), json!({"kind":"honest","peer":"reference-responder","version":v.name(),"key_spelling":sp,"message":e}));
+                    } else {
+                        *failed.lock().unwrap() = Some(e);
+                    }
+                }
+                Ok(out) => {
+                    evals.fetch_add(1, Relaxed);
+                    if !out.accepted || !out.verified_yes {
+                        ctx.violation("honest-reply-rejected", "key-parsing", &format!("{}/key-spelling", v.name()), json!({"kind":"honest","peer":"reference-responder","version":v.name(),"key_spelling":(["hex","base64","HEX","mixed-case hex"][sp as usize]),"n":n,"i":i,
+                            "exit":out.run.exit.code,"stdout":out.run.exit.stdout,"stderr_first":out.run.exit.stderr.lines().take(3).collect::<Vec<_>>()}));
+                    }
+                }
+            }
+        });
+        if let Some(e) = failed.lock().unwrap().take() {
+            return Err(e);
+        }
+    }
     // default time format (UTC) against the reference calendar conversion
     for v in [Version::Classic, Version::Ietf13] {
         for &(secs, sub) in &[(0u64, 0u64), (951_782_400, 0), (2_147_483_648, 7), (253_402_300_799, 0)] {
@@ -775,7 +833,7 @@ pub fn run_c03(ctx: &Ctx) -> Result<(), String> {
     ctx.cov("outcome_classes", json!(*classes.lock().unwrap()));
     ctx.cov("exhaustive", json!(true));
     ctx.cov("bound", json!({"batch_shapes": shapes.len(), "midpoints": mids.len(), "real_server_runs": real_n}));
-    ctx.cov("rule", json!("each case = one execution of the real client against (1) the reference responder placing the client's request at position i of a batch of n (quick: all i for n in {1,2,3,5,8}, i in {0,31,63} for 64; thorough: all 2080 shapes n<=64) with a signed midpoint from {0, 1us, 1.999999s, 2^31-1, 2^31, now, year 2200, 9999-12-31T23:59:59.999999}, version x key option {none, hex, base64} x plain/JSON; (2) the real server binary with -n k. Oracle: exit 0, printed time == signed midpoint converted from the protocol unit (independent calendar conversion for the default format), verified=Yes iff a key was given, merkle_index == i."));
+    ctx.cov("rule", json!("each case = one execution of the real client against (1) the reference responder placing the client's request at position i of a batch of n (quick: all i for n in {1,2,3,5,8}, i in {0,31,63} for 64; thorough: all 2080 shapes n<=64) with a signed midpoint from {0, 1us, 1.999999s, 2^31-1, 2^31, now, year 2200, 9999-12-31T23:59:59.999999}, version x key option {none, hex, base64} x plain/JSON; the key spelled as lower/upper/mixed-case hex and base64; (2) the real server binary with -n k. Oracle: exit 0, printed time == signed midpoint converted from the protocol unit (independent calendar conversion for the default format), verified=Yes iff a key was given, merkle_index == i."));
     ctx.sample(json!({"peer":"reference-responder","version":"ietf13","n":5,"i":3,"midpoint":[2147483648u64, 500000],"key":"hex"}));
     ctx.sample(json!({"peer":"real-server","version":"classic","n":8}));
     Ok(())
